@@ -882,8 +882,10 @@ def runI (cfg : Cfg) : State → List Label → Option State
     else none
 
 /-- something has happened after which the operator must shut down: a stop was requested, a root task has ended
-    (for whatever reason), or `run_tasks` is already past its first wait -/
+    (for whatever reason), `run_tasks` is already past its first wait, or a failure that the code escalates has happened
+    (`tFail`: a failed startup handler, a failing stream / ensemble task / core task, a worker failing under a streaming
+    watcher) -/
 def Triggered (s : State) : Prop :=
-  s.rt ≠ .waiting ∨ anyRootEnded s = true ∨ s.stopFlagSet = true
+  s.rt ≠ .waiting ∨ anyRootEnded s = true ∨ s.stopFlagSet = true ∨ s.tFail.isSome = true
 
 end Kopf.C20
